@@ -1,0 +1,199 @@
+// Copyright 2015 Keybase, Inc. All rights reserved. Use of
+// this source code is governed by the included BSD license.
+
+//go:build verif
+// +build verif
+
+package saltpack
+
+// Hooks for the verification harness in /verif. Compiled only with the
+// `verif` build tag; add-only (no existing line of the package is touched).
+//
+//   (a) the package-private bounded draw and shuffle (property C19),
+//   (b) constructors for the private stream pieces so that each can be driven
+//       alone (C13, C14),
+//   (c) a packet lister: what the package's own MessagePack stream yields for a
+//       byte string, decoded into the package's own packet types,
+//   (d) buffered-length accessors of the encoder streams (C13 memory bound).
+
+import (
+	"bytes"
+	"io"
+)
+
+// (a) ------------------------------------------------------------------------
+
+// VerifCsprngUint32n exposes csprngUint32n.
+func VerifCsprngUint32n(csprng io.Reader, n uint32) (uint32, error) {
+	return csprngUint32n(csprng, n)
+}
+
+// VerifCsprngShuffle exposes csprngShuffle.
+func VerifCsprngShuffle(csprng io.Reader, n int, swap func(i, j int)) error {
+	return csprngShuffle(csprng, n, swap)
+}
+
+// (b) ------------------------------------------------------------------------
+
+// VerifPunctuatedReader wraps the private punctuatedReader.
+type VerifPunctuatedReader struct{ p *punctuatedReader }
+
+// VerifNewPunctuatedReader constructs one.
+func VerifNewPunctuatedReader(r io.Reader, punctuation byte) *VerifPunctuatedReader {
+	return &VerifPunctuatedReader{newPunctuatedReader(r, punctuation)}
+}
+
+func (v *VerifPunctuatedReader) Read(out []byte) (int, error) { return v.p.Read(out) }
+
+// ReadUntilPunctuation forwards.
+func (v *VerifPunctuatedReader) ReadUntilPunctuation(lim int) ([]byte, error) {
+	return v.p.ReadUntilPunctuation(lim)
+}
+
+type verifChunker func() ([]byte, error)
+
+func (f verifChunker) getNextChunk() ([]byte, error) { return f() }
+
+// VerifNewChunkReader builds a chunkReader over a callback.
+func VerifNewChunkReader(next func() ([]byte, error)) io.Reader {
+	return newChunkReader(verifChunker(next))
+}
+
+// (c) ------------------------------------------------------------------------
+
+// VerifItem is one object after the header packet: whether it decodes into
+// the block type the mode expects, and the decoded fields.
+type VerifItem struct {
+	Decodes bool
+	Final   bool
+	Auths   [][]byte // encryption
+	Ct      []byte   // encryption, signcryption
+	Sig     []byte   // attached signature
+	Chunk   []byte   // attached signature
+}
+
+// VerifListing is what a receiver's MessagePack stream yields for a message.
+type VerifListing struct {
+	HeaderState string // "unreadable" | "undecodable" | "ok" | "badmajor"
+	HeaderBytes []byte
+	Enc         *EncryptionHeader
+	Sig         *SignatureHeader
+	Items       []VerifItem
+	Tail        error // io.EOF = clean end; other = error reading the next object
+}
+
+func verifSkip(msg []byte, k int) (*msgpackStream, error) {
+	mps := newMsgpackStream(bytes.NewReader(msg))
+	headerBytes := []byte{}
+	if _, err := mps.Read(&headerBytes); err != nil {
+		return nil, err
+	}
+	for i := 0; i < k; i++ {
+		var x interface{}
+		if _, err := mps.Read(&x); err != nil {
+			return nil, err
+		}
+	}
+	return mps, nil
+}
+
+// VerifListPackets lists msg for mode "enc", "signcrypt" or "sig".
+func VerifListPackets(mode string, msg []byte) (l VerifListing) {
+	mps := newMsgpackStream(bytes.NewReader(msg))
+	headerBytes := []byte{}
+	if _, err := mps.Read(&headerBytes); err != nil {
+		l.HeaderState = "unreadable"
+		return l
+	}
+	l.HeaderBytes = headerBytes
+	var version Version
+	switch mode {
+	case "enc", "signcrypt":
+		var h EncryptionHeader
+		if err := decodeFromBytes(&h, headerBytes); err != nil {
+			l.HeaderState = "undecodable"
+			return l
+		}
+		l.Enc = &h
+		version = h.Version
+	default:
+		var h SignatureHeader
+		if err := decodeFromBytes(&h, headerBytes); err != nil {
+			l.HeaderState = "undecodable"
+			return l
+		}
+		l.Sig = &h
+		version = h.Version
+	}
+	l.HeaderState = "ok"
+	if mode != "signcrypt" && version.Major != 1 && version.Major != 2 {
+		l.HeaderState = "badmajor"
+		return l
+	}
+	for k := 0; ; k++ {
+		s, err := verifSkip(msg, k)
+		if err != nil {
+			l.Tail = err
+			return l
+		}
+		var x interface{}
+		if _, err := s.Read(&x); err != nil {
+			l.Tail = err
+			return l
+		}
+		s, _ = verifSkip(msg, k)
+		var it VerifItem
+		switch mode {
+		case "enc":
+			ct, auths, isFinal, _, err := readEncryptionBlock(version, s)
+			if err == nil {
+				it.Decodes, it.Ct, it.Final = true, ct, isFinal
+				for _, a := range auths {
+					it.Auths = append(it.Auths, append([]byte(nil), a[:]...))
+				}
+			}
+		case "signcrypt":
+			var sb signcryptionBlock
+			if _, err := s.Read(&sb); err == nil {
+				it.Decodes, it.Ct, it.Final = true, sb.PayloadCiphertext, sb.IsFinal
+			}
+		default:
+			sig, chunk, isFinal, _, err := readSignatureBlock(version, s)
+			if err == nil {
+				it.Decodes, it.Sig, it.Chunk, it.Final = true, sig, chunk, isFinal
+			}
+		}
+		l.Items = append(l.Items, it)
+		if !it.Decodes {
+			return l
+		}
+	}
+}
+
+// VerifReceiverKID / VerifPayloadKeyBox expose the two fields of a receiver entry.
+func VerifReceiverFields(h *EncryptionHeader) (kids [][]byte, boxes [][]byte) {
+	for _, r := range h.Receivers {
+		kids = append(kids, r.ReceiverKID)
+		boxes = append(boxes, r.PayloadKeyBox)
+	}
+	return
+}
+
+// (d) ------------------------------------------------------------------------
+
+// VerifBuffered reports how many plaintext bytes an encoder stream returned by
+// NewEncryptStream / NewSignStream / NewSigncryptSealStream currently buffers
+// (-1 if w is none of those).
+func VerifBuffered(w io.Writer) int {
+	switch s := w.(type) {
+	case *encryptStream:
+		return s.buffer.Len()
+	case *signAttachedStream:
+		return s.buffer.Len()
+	case *signcryptSealStream:
+		return s.buffer.Len()
+	case *armorEncoderStream:
+		return s.buf.Len()
+	}
+	return -1
+}
